@@ -144,6 +144,14 @@ Theorem C17_helper_com : forall tps : list (@tetpts R),
   = wsum (combine vols (map (centroid (O := ROps)) tps)).
 Proof. exact mesh_com_spec. Qed.
 
+(** ** the tolerance literals of the class selection are the documented ones
+    (1e-14 as binary64 = 6338253001141147 / 2^99); the theorems above hold for any positive
+    tolerance, so this pin is what re-opens an obligation when a tolerance is edited *)
+Theorem C17_tolerances_pinned :
+  (TetTables.box_tol_m = 6338253001141147 /\ TetTables.cyl_tol_m = 6338253001141147)%Z /\
+  (TetTables.box_tol_k = 99 /\ TetTables.cyl_tol_k = 99 /\ TetTables.box_n_corner = 8)%nat.
+Proof. repeat split; reflexivity. Qed.
+
 (** ** the per-run certificate checker is sound *)
 Theorem C17_mesh_cert_sound : forall sigma vs ts total s,
   0 < s -> mesh_cert sigma vs ts total = true ->
@@ -192,6 +200,7 @@ Print Assumptions C17_helper_volumes_sum.
 Print Assumptions C17_helper_box_volume.
 Print Assumptions C17_helper_aabbs.
 Print Assumptions C17_helper_com.
+Print Assumptions C17_tolerances_pinned.
 Print Assumptions C17_mesh_cert_sound.
 Print Assumptions C17_box_nonvacuous.
 Print Assumptions C17_cylinder_nonvacuous.
